@@ -18,12 +18,14 @@ class C18(Spec):
                   "mutated_complete). The model is tied to the code by a byte-exact differential run (Lean SHA-256) under "
                   "taskset for 1,2,3,5,8,13,16 CPUs: roots for a stratified set of leaf counts up to 4096 (thorough: every "
                   "count), branches at many positions, duplicated-tail lists, mixed main/para transaction lists; the "
-                  "predicates are evaluated on the implementation and the roots are compared across worker counts.")
+                  "predicates are evaluated on the implementation and the roots are compared across worker counts; the stored "
+                  "para-tx table and header TxHash of blocks delivered to a real node are compared with the model as well.")
     level_note = ("H2 (double SHA-256 of the concatenation) is abstract in the theorems: binding concludes '... or Collision or "
                   "LeafIsInner' instead of assuming injectivity; leaves are 32-byte hashes (GetHashFromTwoHash's copy into a "
-                  "64-byte buffer is modelled for 32-byte or nil arguments only); blockchain.getMultiLayerProofs is mirrored by "
-                  "the harness (GetMerkleBranch of the child range + GetMerkleBranch of the child hashes), not driven through a node; "
-                  "worker counts above 16 are covered by the theorem only.")
+                  "64-byte buffer is modelled for 32-byte or nil arguments only); blockchain.getMultiLayerProofs is driven through a "
+                  "non-mining testnode (ProcessBlock, then ProcQueryTxMsg for every transaction, proofs verified against the stored "
+                  "header) — proofs of blocks stored in TransactionSort order verify, proofs of accepted unsorted peer blocks do not "
+                  "(known finding); worker counts above 16 are covered by the theorem only.")
     assumptions = (
         "GetHashFromTwoHash behaves as a function of its two 32-byte (or nil) arguments; sha256 is the Go standard library's",
         "runtime.NumCPU() equals the affinity set by taskset (checked: the harness prints the count it sees)",
@@ -44,11 +46,7 @@ class C18(Spec):
             rs.append(dict(env={}, args=("all" if k == 1 else "multi" if k in (3, 16) else "roots",),
                            prefix=("taskset", "-c", "0-%d" % (k - 1) if k > 1 else "0"), ncpu=k))
         # the real proof path of a node (ProcessBlock -> stored block + para-tx table -> ProcQueryTxMsg)
-        from .. import core
-        nb, log = core.go_build("h_c18node")
-        if nb is None:
-            raise RuntimeError("h_c18node does not build against the working tree: " + log[-1200:])
-        rs.append(dict(env={}, args=(), binary=nb, ncpu=0))
+        rs.append(dict(env={}, args=("node",), ncpu=0))
         return rs
 
     def post(self, trace, run):
